@@ -350,7 +350,7 @@ def pipeline(ck, quick):
                    f"pipeline {j['shapes']} base {j['base']} rule {j['rule']} avg {j['avg']}: {m}",
                    {"job": j, "mismatches": r["mismatches"][:10], "groups": r["groups"]})
     ok_jobs.append(j); ok_res.append(r)
-  hetero = sum(1 for r in ok_res for g in r["groups"] if len(set(g["used"])) > 1)
+  hetero = sum(1 for r in ok_res for g in r["groups"] if len(set(g["ranks"])) > 1)
   ck.cov["pipeline_groups_with_unequal_ranks"] = hetero
   if ok_res and hetero == 0 and not ck.violations:
     raise core.MachineryError("vacuous pipeline leg: every group was given uniform ranks")
